@@ -66,12 +66,18 @@ func parseReturnsOnPaths(prog *Program, parse, errM *ssa.Function) (allErr bool,
 				idx, pr = i, &evs[i]
 			}
 		}
-		if pr == nil || pr.Res == nil {
+		if pr != nil && pr.Res == nil {
 			continue
 		}
-		matched, known := evalBool(sm.St, &Sym{K: sRes, A: pr.Res, Idx: 1})
-		if !known || matched {
-			continue
+		if pr != nil {
+			matched, known := evalBool(sm.St, &Sym{K: sRes, A: pr.Res, Idx: 1})
+			if !known || matched {
+				continue
+			}
+		} else {
+			// a return before the start rule was tried at all is a refusal too: the same obligations (an error on record,
+			// no value), counted from the beginning of the path
+			idx = -1
 		}
 		nNo++
 		recorded := false
@@ -95,7 +101,7 @@ func parseReturnsOnPaths(prog *Program, parse, errM *ssa.Function) (allErr bool,
 			}
 			if !nonEmpty {
 				noMatch = false
-				detail = "a no-match path returns without recording an error although the list may be empty" + " [path " + strings.Join(sm.St.trail, " ") + "]"
+				detail = "a path on which nothing was matched returns without recording an error although the list may be empty: (nil, nil) reaches the caller's type assertion" + " [path " + strings.Join(sm.St.trail, " ") + "]"
 			}
 		}
 		if !sm.Results[0].IsNil() {
